@@ -13,7 +13,7 @@
      run / srun       histories of operations on four registers, model / specification *)
 From Coq Require Import List ZArith Bool.
 Import ListNotations.
-From DDP Require Import Rt.Str Rt.StrSpec Rt.StrBase Rt.StrUtf8 Rt.StrOps Rt.StrOps2 Rt.StrOps3 Rt.StrHistory.
+From DDP Require Import Rt.Str Rt.StrSpec Rt.StrBase Rt.StrUtf8 Rt.StrOps Rt.StrOps2 Rt.StrOps3 Rt.StrHistory Rt.StrShrink.
 Open Scope Z_scope.
 
 (* ---- encode / decode for EVERY scalar value (range lemmas, no sampling) ---------------------------------- *)
@@ -125,6 +125,14 @@ Theorem C12_replace_partial : forall enc dec, codec_ok enc dec ->
     rres (replace_char_in_string enc s ch i) (s_replace cs ch i).
 Proof. exact (fun enc dec C => replace_char_repr enc (fun c H => proj1 C c (tchar_scalar c H))). Qed.
 Print Assumptions C12_replace_partial.
+
+(* for EVERY replacement character (also a shorter one) the code points of the result are right or
+   both sides raise the Laufzeitfehler; cps_res compares the code-point view only, not well-formedness *)
+Theorem C12_replace_code_points_partial : forall enc dec, codec_ok enc dec ->
+  forall s cs ch i, repr s cs -> tchar ch = true ->
+    cps_res (replace_char_in_string enc s ch i) (s_replace cs ch i).
+Proof. exact (fun enc dec C => replace_char_cps enc (fun c H => proj1 C c (tchar_scalar c H))). Qed.
+Print Assumptions C12_replace_code_points_partial.
 
 Theorem C12_replace_shorter_refuted :
   exists s cs ch i s' r, repr s cs /\ tchar ch = true /\
